@@ -681,12 +681,12 @@ def gen_cases(tier, tr, SR=None):
     ncorp = len(cases)
     cases += small_scope(S1)
     cases += catalogue(rnd, S1) + catalogue(rnd, S2)
-    nv, nm, nx = (9000, 3000, 1500) if tier == 'quick' else (90000, 30000, 15000)
+    nv, nm, nx = (6000, 2500, 1000) if tier == "quick" else (90000, 30000, 15000)
     cases += [gen_case(rnd, S1, False) for _ in range(nv)]
     cases += [gen_case(rnd, S1, True) for _ in range(nm)]
     cases += [gen_case(rnd, S2, rnd.random() < 0.4) for _ in range(nx)]
     if SR is not None:
-        nr = 1500 if tier == "quick" else 20000
+        nr = 1200 if tier == "quick" else 12000
         rc, stats, _ = gen_real_cases(rnd, SR, nr)
         cases += rc
         REAL_STATS.clear()
@@ -1030,8 +1030,13 @@ KNOWN_PREDICATES = {
     #  repo grammar alarms if they return)
     'C19-json-memory-negative': pred_json_memory,
     'C19-to_edgeql-int64': pred_edgeql_int64,
-    'C19-multi-default-tuple': pred_multi_default_tuple,
 }
+# fixed in /repo (suppress nothing; kept only so that a replay can name what came back):
+#   C19-to_edgeql-memory (3120b56), C19-to_edgeql-unparseable-string (e926075+28c4a3e),
+#   C19-multi-default-tuple (dfc4d65: staeval.object_type_to_spec wrapped a multi default in one tuple)
+FIXED_PREDICATES = {'C19-multi-default-tuple': pred_multi_default_tuple,
+                    'C19-to_edgeql-memory': pred_edgeql_memory,
+                    'C19-to_edgeql-unparseable-string': pred_unparseable_string}
 
 
 def classify(case, tag, known_ids):
@@ -1045,6 +1050,9 @@ def classify(case, tag, known_ids):
     for fid, pred in KNOWN_PREDICATES.items():
         if pred(case, t):
             return fid if fid in known_ids else None, fid
+    for fid, pred in FIXED_PREDICATES.items():
+        if pred(case, t):
+            return None, fid + ' (recorded as FIXED: it is back)'
     return None, None
 
 
@@ -1101,6 +1109,14 @@ def nontrivial(case, impl_line):
 def run(tier):
     rep = lib.Report(PROP, tier, 'proof')
     thorough = tier == 'thorough'
+    import time as _time
+    stages = {}
+    _t = [_time.time()]
+
+    def mark(name):
+        now = _time.time()
+        stages[name] = round(now - _t[0], 1)
+        _t[0] = now
 
     # ---- 1. translator (fail-closed)
     tr = None
@@ -1117,8 +1133,11 @@ def run(tier):
             tr = None
 
     # ---- 2. proofs
+    mark('translator')
     pf = lib.proof_stage(rep, 'C19', THEOREMS, extra_targets=['theories/C19/Refuted.vo'], thorough=thorough)
+    mark('proofs')
     exe, blog = lib.build_model('c19', 'ExtractC19.v', 'c19_main.ml', 'C19_ext')
+    mark('extraction+ocaml')
 
     if tr is None:
         rep.violation('translator failed closed and no fallback tables: ' + str(tr_err),
@@ -1134,10 +1153,14 @@ def run(tier):
         SR = spec_real()
     except Exception as e:
         sr_err = f'{type(e).__name__}: {str(e)[-800:]}'
+    mark('real spec dump (std schema load)')
     cases, ncorp = gen_cases(tier, tr, SR)
+    mark('case generation (incl. real compile of CONFIGURE text)')
     lines = [enc(c) for c in cases]
     impl = run_impl(lines)
+    mark('implementation + monitors')
     model = lib.run_model(exe, lines) if exe else None
+    mark('extracted model')
 
     known_ids = {e['id'] for e in lib.known_findings(PROP)}
     mon = []            # (case index, tag)
@@ -1183,6 +1206,7 @@ def run(tier):
             coq_diff = [-1]
             rep.notes.append('coq_eval failed: ' + str(e)[-500:])
 
+    mark('coq vm_compute cross-check')
     # ---- 5. verdict
     viol_tags = {}
     quirk_counts = {}
@@ -1208,7 +1232,7 @@ def run(tier):
         small = shrink(cases[i], None, still_batch)
         what = f'monitor {tag!r} failed on the real configuration code ({len(idxs)} cases)'
         if would:
-            what += f' [matches proposed known finding {would}, which is not in known_findings.json]'
+            what += f' [matches finding {would}; not suppressed: no such entry in known_findings.json findings]'
         rep.violation(what, {'case': enc(small), 'original_case': lines[i], 'impl_result': one_impl(small),
                              'model_result': (lib.run_model(exe, [enc(small)])[0] if exe else None),
                              'proposed_known_finding': would,
@@ -1292,6 +1316,7 @@ def run(tier):
                                   'loaded from the std schema; the resulting Operations are the cases of this stream '
                                   '(INSERT / filtered RESET payloads are generated: the compiler leaves them to SQL)')
                              if SR is not None else {'unavailable': sr_err}),
+        'stage_seconds': stages,
         'translator': (tr or {}).get('manifest'),
         'trusted_base': [
             'Coq 8.16.1 kernel (coqc; coqchk in the thorough tier); vm_compute only for examples/refutations and the cases.v cross-check',
